@@ -8,12 +8,14 @@ import sys
 
 from harness import caseutil
 from harness.families import ALL_FAMS
-from harness.treelib import TreeEnv, walk_invariants
+from harness.treelib import TreeEnv, walk_invariants, call_term
 from harness.props.c01 import gen_history
 from harness.props.c04 import f16_condition
 
 PROPS_FILE = "Props/C06.v"
-MODEL_FILES = ["Model/RTree.v"]
+MODEL_FILES = ["Model/RTree.v", "Model/TreeRun.v", "Model/Persist.v", "Model/PersistSpec.v", "Model/Pickle.v"]
+HDR = ("From Coq Require Import ZArith List.\nFrom BT Require Import Model.CaseUtil Model.RTree Model.TreeRun Model.Pickle.\n"
+       "Import ListNotations.\nOpen Scope Z_scope.\n")
 RULE = ("containers reached by random histories (empty, one embedded leaf, multi-level at small node sizes and family "
         "defaults), all families and kinds: __getstate__/__setstate__, pickle protocols 0..5, copy/deepcopy, in C and "
         "Python; byte comparison C vs Python; C pickles loaded by a pure-Python process (PURE_PYTHON=1) and vice versa; "
@@ -22,6 +24,53 @@ RULE = ("containers reached by random histories (empty, one embedded leaf, multi
 ASSUMPTIONS = ["the byte level of pickle is CPython's; the model covers the state values only",
                "the pure-Python side of the cross-loading test runs in a child process with PURE_PYTHON=1"]
 SIZES = [(2, 2), (3, 3), (4, 4), (1, 2), None]
+
+
+def real_graph(env, t):
+    """what __getstate__ returns for every object of the container, objects numbered in pre-order
+    (node before its children); Coq terms of type wrec"""
+    objs = []
+
+    def kids_of(n):
+        st = n.__getstate__()
+        if st is None:
+            return []
+        if len(st) == 1:
+            return [n._firstbucket]
+        return list(st[0][0::2])
+
+    def walk(n):
+        objs.append(n)
+        if type(n) is type(t):
+            for c in kids_of(n):
+                walk(c)
+    walk(t)
+    num = {id(o): i for i, o in enumerate(objs)}
+
+    def ref(o):
+        return -1 if o is None else num.get(id(o), -2)
+
+    def kvs(leafstate):
+        items = leafstate[0]
+        if env.setlike:
+            return "; ".join("KV %s 0" % caseutil.z(env.km.ik(k)) for k in items)
+        return "; ".join("KV %s %s" % (caseutil.z(env.km.ik(k)), caseutil.z(env.vm.iv(v))) for k, v in zip(items[0::2], items[1::2]))
+
+    out = []
+    for o in objs:
+        st = o.__getstate__()
+        if type(o) is not type(t):
+            out.append("WRLeaf [%s] %s" % (kvs(st), caseutil.z(ref(st[1]) if len(st) > 1 else -1)))
+        elif st is None:
+            out.append("WREmpty")
+        elif len(st) == 1:
+            ls = st[0][0]
+            out.append("WREmb [%s] %s" % (kvs(ls), caseutil.z(ref(ls[1]) if len(ls) > 1 else -1)))
+        else:
+            data = st[0]
+            kids = ["KV 0 %s" % caseutil.z(ref(data[0]))] + ["KV %s %s" % (caseutil.z(env.km.ik(data[i - 1])), caseutil.z(ref(data[i]))) for i in range(2, len(data), 2)]
+            out.append("WRNode [%s] %s" % ("; ".join(kids), caseutil.z(ref(st[1]))))
+    return out
 
 
 def items_of(env, t):
@@ -62,9 +111,10 @@ def check_copy(ctx, env, orig_items, o, how, followup, fn, kind, impl, info, ori
 
 def run(ctx):
     rng = ctx.rng
-    nh = ctx.n(150, 4000)
+    nh = ctx.n(400, 6000)
     jobs, expect = [], {}
     nbytes_cmp = 0
+    terms, meta = [], []
     for it in range(nh):
         kind = rng.choice(["BTree", "TreeSet", "Bucket", "Set", "BTree"])
         fn = rng.choice(ALL_FAMS)
@@ -88,6 +138,17 @@ def run(ctx):
                 base = items_of(env, t)
                 if kind in ("BTree", "TreeSet"):
                     leaves = max(leaves, len(env.leaf_objects(t)))
+                    # ---- correspondence: the object graph __getstate__ describes vs the model's dump_all []
+                    try:
+                        recs = real_graph(env, t)
+                    except Exception as e:  # noqa
+                        recs = None
+                        ctx.oracle_failure("%s:getstate-graph:%s:raises-%s" % (impl, kind, type(e).__name__), "%s%s/%s walking __getstate__ raised %r" % (fn, kind, impl, e), info)
+                    if recs is not None:
+                        vs = "true" if (impl == "C" and fn[1] in "IULQF" and kind == "BTree" and fn != "fs") else "false"
+                        terms.append("PK %d %d %s %s [%s] [%s]" % (ml, mi, vs, "true" if impl == "C" else "false",
+                                                                    "; ".join(call_term(c) for c in calls), "; ".join(recs)))
+                        meta.append((fn, kind, impl, mode, ml, mi, calls))
                 # ---- getstate / setstate
                 # (on a twin: the reproduced container shares its children with the one the state
                 #  was taken from, so follow-up mutations must not touch the tree used below)
@@ -143,11 +204,18 @@ def run(ctx):
             with envC.sized(*sz):
                 o = rebuild(envC, calls)
                 base = items_of(envC, o)
+                f16 = kind in ("BTree", "TreeSet") and f16_condition(envC, o)
                 outs = [list(envC.call(o, c)) for c in followup]
-            expect[it] = (base, outs, dumps["C"], info)
+            expect[it] = (base, outs, dumps["C"], dict(info, f16=bool(f16)))
         ctx.count((fn, kind, repr(calls)), nontrivial=leaves >= 2)
         if len(ctx.samples) < 2 and leaves >= 2 and len(calls) < 14:
             ctx.sample({"family": fn, "kind": kind, "sizes": sz, "calls": [list(map(str, c)) for c in calls], "pickle_p2_hex": dumps["C"].get(2, b"").hex()[:120]})
+    total, badc, errs = caseutil.eval_cases("c06", HDR, "pkcase_ok", terms, shard=60, ctype="wpkcase")
+    for e in errs:
+        ctx.corr_mismatch("c06 case file", e)
+    for i in badc[:5]:
+        ctx.corr_mismatch("pickled object graph: model (dump_all []) vs __getstate__ of the implementation", {"case": meta[i]})
+    ctx.cov["object_graphs_compared_with_model"] = total
     # ---- cross-loading in a pure-Python child
     env = dict(os.environ, PURE_PYTHON="1")
     proc = subprocess.run([sys.executable, os.path.join(os.path.dirname(os.path.dirname(os.path.abspath(__file__))), "c06_child.py")],
@@ -171,7 +239,7 @@ def run(ctx):
             elif ld["outs"] != json.loads(json.dumps(outs)):
                 bad = "not-usable"
             if bad:
-                ctx.oracle_failure("cross-load:C->Py:%s:%s" % (info["kind"], bad), "pure-Python process loading a C pickle (protocol %s) of %s%s: %s %s" % (
+                ctx.oracle_failure("cross-load:C->Py:%s:%s%s" % (info["kind"], bad, ":embedded-leaf-below-root" if info.get("f16") else ""), "pure-Python process loading a C pickle (protocol %s) of %s%s: %s %s" % (
                     ld["proto"], info["family"], info["kind"], bad, ld.get("error", "")), info)
         for proto, hx in r["dumps"].items():
             if bytes.fromhex(hx) != cdumps[int(proto)]:
